@@ -242,7 +242,7 @@ Definition implies_max_prevotes (v : votes) (b : hdr) : res bool :=
   | nw :: _ =>
     if negb (h_height b =? i_height nw) then Error 21 else
     if h_height b <=? h_mhg b then Ok false else
-    let offset := i_height nw - h_mhg b - 1 in
+    let offset := i_height nw - h_mhg b in
     match nth_error (v_infos v) (N.to_nat offset) with
     | None => Ok true
     | Some bi => Ok (i_gen bi =? h_gen b)
